@@ -291,14 +291,14 @@ def check(ctx):
         mkargs(x) = argument tuple of the scalar operation `fname` for the point x."""
         pts = [simp(real, p) if isinstance(p, Fraction) else p for p in sample_points(rng, I.a, I.b)]
         outs = [(x, scalar(real, fname, mkargs(x))) for x in pts]
-        bad_pts = [(x, o) for x, o in outs if o[0] == "err" and o[1] in ("runtime", "divzero")]
+        bad_pts = [(x, o) for x, o in outs if o[0] == "err" and o[1] in ("runtime", "divzero", "eval", "overflow")]
         if expect_reject is True and res[0] != "err":
             ctx.violation("reject:" + txt, txt, "an error (the operation is undefined somewhere on the operand)",
                           canon_result(real, res), HOW % txt)
             return
         if res[0] == "err":
-            if res[1] not in ("runtime", "divzero"):
-                ctx.violation("errclass:" + txt, txt, "a value or a diagnosed domain error", "err " + res[1], HOW % txt)
+            if res[1].startswith("py:") or res[1] == "diverges":      # which diagnosed error it is does not matter
+                ctx.violation("errclass:" + txt, txt, "a value or a diagnosed error", "err " + res[1], HOW % txt)
             elif not bad_pts and all(o[0] == "ok" for _, o in outs):
                 ctx.violation("spurious-reject:" + txt, txt,
                               "an interval (the scalar operation is defined at all %d sampled points incl. the endpoints)" % len(outs),
